@@ -87,6 +87,17 @@ import copy as _copy
 
 
 def _is_seq_like(n):
+    """operands for which `+` is concatenation (order matters): literals, comprehensions, strings, and the constructors /
+    conversions that return lists, tuples or strings"""
+    if isinstance(n, ast.IfExp):
+        return _is_seq_like(n.body) or _is_seq_like(n.orelse)
+    if isinstance(n, ast.Call):
+        f = n.func
+        nm = f.id if isinstance(f, ast.Name) else f.attr if isinstance(f, ast.Attribute) else None
+        if nm in ("list", "tuple", "sorted", "str", "repr", "format", "join", "tolist", "split", "reversed", "chain", "bytes"):
+            return True
+    if isinstance(n, ast.Subscript) and isinstance(n.slice, ast.Slice) and _is_seq_like(n.value):
+        return True
     return isinstance(n, (ast.List, ast.Tuple, ast.ListComp, ast.JoinedStr, ast.Dict, ast.Set)) or (
         isinstance(n, ast.Constant) and isinstance(n.value, (str, bytes)))
 
